@@ -1,3 +1,4 @@
+import Neutrino.Gen.Store
 /-
 Model of headerfs: the block-header store and the filter-header store over
 their two flat files and the shared bbolt index (headerfs/store.go, file.go,
@@ -37,9 +38,10 @@ deriving Repr, DecidableEq
 inductive Which | B | F
 deriving Repr, DecidableEq
 
+/-- entry sizes, regenerated from headerfs/index.go on every run -/
 def width : Which → Nat
-  | .B => 80
-  | .F => 32
+  | .B => Gen.Store.blockHeaderSize
+  | .F => Gen.Store.regularFilterHeaderSize
 
 def Durable.file (d : Durable) : Which → FileSt
   | .B => d.bf
@@ -327,28 +329,30 @@ inductive Op
   | reopen
 deriving Repr, DecidableEq
 
+/-- what the caller (or the restarted process) sees -/
+def R.fin : R Out → Durable × Out
+  | .ok o c => (c.d, o)
+  | .crashed d => (d, .crashed)
+
 /-- Run one operation under an injection.  Heights and ids that the real
 callers derive from reads (tip height, the block ids a filter batch is for,
 the new filter tip) are derived here the same way. -/
 def exec (d : Durable) (op : Op) (inj : Inj) : Durable × Out :=
   let c : Ctx := { d := d, inj := inj }
-  let fin : R Out → Durable × Out
-    | .ok o c => (c.d, o)
-    | .crashed d => (d, .crashed)
   match op with
   | .wb ids =>
     match btipHeight? d with
     | none => (d, .err)
-    | some (_, tipH) => fin (writeBlocks ids (tipH + 1) c)
+    | some (_, tipH) => R.fin (writeBlocks ids (tipH + 1) c)
   | .wf fids =>
     match ftipHeight? d with
     | none => (d, .err)
     | some (_, ftipH) =>
-      if fids.isEmpty then fin (writeFilters fids 0 c) else
+      if fids.isEmpty then R.fin (writeFilters fids 0 c) else
       match d.bf.get? (ftipH + fids.length) with
       | none => (d, .err)
-      | some last => fin (writeFilters fids last c)
-  | .rb n => fin (rollbackBlocks n c)
+      | some last => R.fin (writeFilters fids last c)
+  | .rb n => R.fin (rollbackBlocks n c)
   | .rf =>
     match ftipHeight? d with
     | none => (d, .err)
@@ -356,10 +360,10 @@ def exec (d : Durable) (op : Op) (inj : Inj) : Durable × Out :=
       if ftipH = 0 then (d, .err) else
       match d.bf.get? (ftipH - 1) with
       | none => (d, .err)
-      | some nt => fin (rollbackFilter nt c)
+      | some nt => R.fin (rollbackFilter nt c)
   | .rollto h =>
     match btipHeight? d, ftipHeight? d with
-    | some (_, tipH), some (_, ftipH) => fin (rollTo h (tipH + 1) c tipH ftipH)
+    | some (_, tipH), some (_, ftipH) => R.fin (rollTo h (tipH + 1) c tipH ftipH)
     | _, _ => (d, .err)
   | .reopen =>
     match reopen d with
